@@ -569,20 +569,48 @@ func c14Worker(raw json.RawMessage) *engine.Result {
 		lost := "state-not-explained"
 		if len(frows) < len(candidates[0]) {
 			lost = "acknowledged-write-lost"
-		} else if hasVacuum && len(errored) == 0 && len(frows) > len(candidates[0]) && (strings.Contains(fired, "/root/merged/") || (strings.Contains(fired, "DELETE ") && strings.Contains(fired, "/root/current/"))) && strings.HasPrefix(firedStmt, "DELETE") {
-			// the failing request was one of the two (deliberately unreported) requests that retire the version
-			// superseded by an acknowledged DELETE (copy under root/merged/, removal from root/current/), a vacuum
-			// followed, and MORE rows are visible than were acknowledged
-			have := map[string]bool{}
-			for _, r := range frows {
-				have[r] = true
+		} else if hasVacuum {
+			// one of the failing requests was one of the two (deliberately unreported) requests that retire the
+			// version superseded by an acknowledged DELETE (copy under root/merged/, removal from root/current/), a
+			// vacuum followed, and the visible rows are an explained state PLUS rows which that DELETE removed
+			isRetire := func(rq, stmt string) bool {
+				return (strings.Contains(rq, "/root/merged/") || (strings.Contains(rq, "DELETE ") && strings.Contains(rq, "/root/current/"))) && strings.HasPrefix(stmt, "DELETE")
 			}
-			super := true
-			for _, r := range candidates[0] {
-				super = super && have[r]
+			second, secondStmt := firedSecond, ""
+			if k := strings.Index(firedSecond, " during "); k >= 0 {
+				second, secondStmt = firedSecond[:k], firedSecond[k+len(" during "):]
 			}
-			if super {
-				lost = "deleted-rows-return-after-vacuum:retiring-the-superseded-version-failed"
+			if isRetire(fired, firedStmt) || isRetire(second, secondStmt) {
+				inView := map[string]bool{}
+				for _, r := range rowsOf(view, nil, false) {
+					inView[r] = true
+				}
+				deletedAck := map[string]bool{}
+				for _, r := range rowsOf(committed, nil, false) {
+					if !inView[r] {
+						deletedAck[r] = true
+					}
+				}
+				for _, cand := range candidates {
+					inCand := map[string]bool{}
+					for _, r := range cand {
+						inCand[r] = true
+					}
+					extra, ok := 0, true
+					for _, r := range frows {
+						if inCand[r] {
+							delete(inCand, r)
+						} else if deletedAck[r] {
+							extra++
+						} else {
+							ok = false
+						}
+					}
+					if ok && len(inCand) == 0 && extra > 0 {
+						lost = "deleted-rows-return-after-vacuum:retiring-the-superseded-version-failed"
+						break
+					}
+				}
 			}
 		}
 		viol(lost, "after the fault cleared a new connection sees %v; acknowledged writes give %v (errored statements: %d)", frows, candidates[0], len(errored))
